@@ -405,6 +405,24 @@ static inline QList_QString_const_iterator QList_QString_begin_const(QList_QStri
 static inline QList_QString_const_iterator QList_QString_end_const(QList_QString *l) { QList_QString_const_iterator it; it.l = l; it.i = l->n; return it; }
 static inline QList_QString_iterator QList_QString_begin(QList_QString *l) { return QList_QString_begin_const(l); }
 static inline QList_QString_iterator QList_QString_end(QList_QString *l) { return QList_QString_end_const(l); }
+/* reverse iteration over a listing (crbegin/crend): {l,i} designates element i-1 */
+typedef struct { QList_QString *l; int i; } std_reverse_iterator_QList_QString_const_iterator;
+typedef std_reverse_iterator_QList_QString_const_iterator std_reverse_iterator_QList_QString_iterator;
+typedef std_reverse_iterator_QList_QString_const_iterator QLRIT;
+static inline QLRIT QList_QString_crbegin_const(QList_QString *l) { QLRIT it; it.l = l; it.i = l->n; return it; }
+static inline QLRIT QList_QString_crend_const(QList_QString *l) { QLRIT it; it.l = l; it.i = l->lo; return it; }
+static inline QLRIT QList_QString_rbegin_const(QList_QString *l) { return QList_QString_crbegin_const(l); }
+static inline QLRIT QList_QString_rend_const(QList_QString *l) { return QList_QString_crend_const(l); }
+static inline QLRIT QList_QString_rbegin(QList_QString *l) { return QList_QString_crbegin_const(l); }
+static inline QLRIT QList_QString_rend(QList_QString *l) { return QList_QString_crend_const(l); }
+static inline QList_QString_const_iterator QList_QString_cbegin_const(QList_QString *l) { QList_QString_const_iterator it; it.l = l; it.i = l->lo; return it; }
+static inline QList_QString_const_iterator QList_QString_cend_const(QList_QString *l) { QList_QString_const_iterator it; it.l = l; it.i = l->n; return it; }
+static inline QList_QString_const_iterator QList_QString_constBegin_const(QList_QString *l) { return QList_QString_cbegin_const(l); }
+static inline QList_QString_const_iterator QList_QString_constEnd_const(QList_QString *l) { return QList_QString_cend_const(l); }
+static inline BOOL op_ne__std_reverse_iterator_QList_QString_const_iterator_std_reverse_iterator_QList_QString_const_iterator(QLRIT a, QLRIT b) { return a.i != b.i; }
+static inline BOOL op_eq__std_reverse_iterator_QList_QString_const_iterator_std_reverse_iterator_QList_QString_const_iterator(QLRIT a, QLRIT b) { return a.i == b.i; }
+static inline QLRIT *std_reverse_iterator_QList_QString_const_iterator_op_inc(QLRIT *a) { a->i--; return a; }
+static inline BOOL QList_QString_const_iterator_op_eq__QList_QString_const_iterator(QList_QString_const_iterator a, QList_QString_const_iterator b) { return a.i == b.i; }
 static inline BOOL QList_QString_const_iterator_op_ne__QList_QString_const_iterator(QList_QString_const_iterator a, QList_QString_const_iterator b) { return a.i != b.i; }
 static inline QList_QString_const_iterator *QList_QString_const_iterator_op_inc(QList_QString_const_iterator *a) { a->i++; return a; }
 static inline int QList_QString_size(QList_QString l) { return l.n - l.lo; }
@@ -436,6 +454,8 @@ static inline QString QList_QString_const_iterator_op_deref(QList_QString_const_
     }
     return e;
 }
+static inline QString std_reverse_iterator_QList_QString_const_iterator_op_deref(QLRIT it)
+{ __CPROVER_assert(it.i > it.l->lo && it.i <= it.l->n, "reverse iterator dereferenced inside [rbegin,rend)"); QList_QString_const_iterator f; f.l = it.l; f.i = it.i > 0 ? it.i - 1 : 0; return QList_QString_const_iterator_op_deref(f); }
 /* result.append(path) while collecting */
 static inline void QList_QString_append__QString(QList_QString *l, QString s)
 { __CPROVER_assert(l->n < INT_MAXV, "list length in range"); if (l->kind == L_BUILD && s.tag == T_ROTPATH) l->own++; else l->kind = L_OTHER; l->n++; }
